@@ -1,2 +1,131 @@
+//! C12 — signature update over any history (form B): explicit-state search with stateright over the REAL
+//! update_signature. State = (message vector over V, current signature bytes); actions = update(i, v) for every
+//! position and every value. The graph closes (3^L vectors), so BFS to fixpoint covers histories of every length;
+//! a path-dependent implementation makes the state count exceed 3^L and the reference-formula invariant fire.
+#![allow(non_snake_case)]
 use crate::common::*;
-pub fn run(_env: &Env) {}
+use mccore::O;
+use refbbs::Suite;
+use serde_json::json;
+use stateright::{Checker, Model, Property};
+
+#[derive(Clone, Debug, PartialEq, Eq, Hash)]
+pub struct St { vec: Vec<u8>, sig: Vec<u8>, broken: Option<String> }
+#[derive(Clone, Debug, PartialEq, Eq, Hash)]
+pub struct Update { i: usize, v: u8 }
+
+pub struct M { suite: Suite, key: Key, header: Option<Vec<u8>>, values: Vec<Vec<u8>>, l: usize, init_sig: Vec<u8> }
+
+impl M {
+    fn msgs(&self, vec: &[u8]) -> Vec<Vec<u8>> { vec.iter().map(|&x| self.values[x as usize].clone()).collect() }
+    /// the signature the key holder would obtain for this vector with the same exponent
+    fn expected(&self, vec: &[u8]) -> Vec<u8> {
+        let s = self.suite;
+        let api = s.api_id();
+        let (_, e) = refbbs::octets_to_signature(&self.init_sig).unwrap();
+        let sk = refbbs::octets_to_scalar_strict(&self.key.sk).unwrap();
+        let gens = refbbs::create_generators(s, self.l + 1, &api);
+        let pk96: [u8; 96] = self.key.pk.clone().try_into().unwrap();
+        let domain = refbbs::calculate_domain(s, &pk96, &gens[0], &gens[1..], hb(&self.header), &api).unwrap();
+        let ms = refbbs::messages_to_scalars(s, &self.msgs(vec), &api).unwrap();
+        let mut B = s.p1() + gens[0] * domain;
+        for i in 0..self.l { B += gens[i + 1] * ms[i]; }
+        let A = B * Option::<bls12_381_plus::Scalar>::from((sk + e).invert()).unwrap();
+        [refbbs::g1_bytes(&A).to_vec(), refbbs::sc_bytes(&e).to_vec()].concat()
+    }
+}
+
+impl Model for M {
+    type State = St;
+    type Action = Update;
+    fn init_states(&self) -> Vec<St> { vec![St { vec: vec![0; self.l], sig: self.init_sig.clone(), broken: None }] }
+    fn actions(&self, s: &St, a: &mut Vec<Update>) { if s.broken.is_some() { return; } for i in 0..self.l { for v in 0..self.values.len() as u8 { a.push(Update { i, v }); } } }
+    fn next_state(&self, s: &St, a: Update) -> Option<St> {
+        let zk = z(self.suite);
+        let old = &self.values[s.vec[a.i] as usize];
+        let new = &self.values[a.v as usize];
+        let mut vec = s.vec.clone(); vec[a.i] = a.v;
+        match zk.update_signature(&self.key.sk, &s.sig, old, new, a.i, self.l) {
+            O::Ok(sig) => Some(St { vec, sig, broken: None }),
+            other => Some(St { vec, sig: vec![], broken: Some(format!("update({}, value{}) failed: {}", a.i, a.v, other.describe())) }),
+        }
+    }
+    fn properties(&self) -> Vec<Property<Self>> {
+        vec![
+            Property::always("update succeeds for every in-range position", |_m: &M, s: &St| s.broken.is_none()),
+            Property::always("current signature verifies for the current vector", |m: &M, s: &St| s.broken.is_some() || z(m.suite).verify(&m.key.pk, &s.sig, oh(&m.header), Some(&m.msgs(&s.vec))).is_ok()),
+            Property::always("current signature equals B(vector)/(sk+e) with the original e (hence path independent)", |m: &M, s: &St| s.broken.is_some() || s.sig == m.expected(&s.vec)),
+            Property::always("current signature verifies for no other vector over V^L", |m: &M, s: &St| {
+                if s.broken.is_some() { return true; }
+                let n = m.values.len();
+                for code in 0..n.pow(m.l as u32) { let w: Vec<u8> = (0..m.l).map(|i| ((code / n.pow(i as u32)) % n) as u8).collect(); if w != s.vec && z(m.suite).verify(&m.key.pk, &s.sig, oh(&m.header), Some(&m.msgs(&w))).is_ok() { return false; } }
+                true
+            }),
+            Property::always("out-of-range positions are refused", |m: &M, s: &St| {
+                if s.broken.is_some() { return true; }
+                [m.l, m.l + 1, 1usize << 32, usize::MAX].iter().all(|&i| matches!(z(m.suite).update_signature(&m.key.sk, &s.sig, &m.values[0], &m.values[1], i, m.l), O::Err(_)))
+            }),
+            Property::always("an update stating a wrong old value never verifies for the intended new vector", |m: &M, s: &St| {
+                if s.broken.is_some() { return true; }
+                for i in 0..m.l { for wrong in 0..m.values.len() as u8 { if wrong == s.vec[i] { continue; } for newv in 0..m.values.len() as u8 {
+                    if let O::Ok(sig) = z(m.suite).update_signature(&m.key.sk, &s.sig, &m.values[wrong as usize], &m.values[newv as usize], i, m.l) {
+                        let mut w = s.vec.clone(); w[i] = newv;
+                        if z(m.suite).verify(&m.key.pk, &sig, oh(&m.header), Some(&m.msgs(&w))).is_ok() { return false; }
+                    }
+                } } }
+                true
+            }),
+        ]
+    }
+}
+
+pub fn run(env: &Env) {
+    let seed = env.ctx.seed;
+    env.ctx.set_rule("stateright BFS to fixpoint over the real update_signature: state = (message vector in V^L, signature bytes), |V| = 3 (empty, 1 byte, 300 bytes), actions = update(i, v) for every i < L and v in V (includes no-op updates and updates to a value used elsewhere); L in {1,2,3} (thorough + 4), both suites, header in {none, 16B}; six invariants on every state: update succeeds; verify(sig, vector) = Ok; sig = reference formula B(vector)/(sk+e) with the original e (path independence); verify(sig, w) = Err for every other w in V^L; positions L, L+1, 2^32, usize::MAX refused; wrong-old-value updates never verify for the intended vector. The graph closes at |V|^L states, so histories of EVERY length are covered; plus one explicit 32-step chain per configuration. transitions = states x L x |V| real update calls (plus the calls made by the invariants).");
+    env.ctx.assume("stateright 0.31 explicit-state checker; the transition function is the real (deterministic) update_signature");
+    let values: Vec<Vec<u8>> = vec![vec![], vec![0x01], mccore::fill(seed, "c12-long", 300)];
+    let maxl = if env.thorough() { 4 } else { 3 };
+    let mut jobs: Vec<(String, Suite, String, Option<Vec<u8>>, usize)> = Vec::new();
+    for s in suites() { for (hn, h) in [hdr_small(seed)[0].clone(), hdr_small(seed)[2].clone()] { for l in (1..=maxl).rev() { jobs.push((format!("{}/h={}/L{}", s.name(), hn, l), s, hn.clone(), h.clone(), l)); } } }
+    mccore::par_for(&jobs, |_, (id, s, hn, h, l)| {
+        let (s, l) = (*s, *l);
+        if !env.want(id) || env.ctx.out_of_time() { return; }
+        let k = key(s, "k1");
+        let init_msgs: Vec<Vec<u8>> = vec![values[0].clone(); l];
+        let init_sig = match z(s).sign(&k.sk, &k.pk, oh(&h), Some(&init_msgs)) { O::Ok(x) => x, o => { env.ctx.violation("C12:base-sign-failed", &o.describe(), env.case(id, json!({}))); return; } };
+        let model = M { suite: s, key: k.clone(), header: h.clone(), values: values.clone(), l, init_sig };
+        let checker = model.checker().threads(2).spawn_bfs().join();
+        let unique = checker.unique_state_count();
+        let expected_states = values.len().pow(l as u32);
+        for i in 0..unique { env.ctx.state(&[id.as_bytes(), &(i as u32).to_be_bytes()]); }
+        env.ctx.steps((unique * l * values.len()) as u64);
+        for _ in 0..unique { env.ctx.trace(); }
+        env.ctx.add_extra("stateright_states_generated", checker.state_count() as u64);
+        env.ctx.extra(&format!("fixpoint:{}", id), json!({"unique_states": unique, "expected_3^L": expected_states, "max_depth": checker.max_depth()}));
+        for (name, path) in checker.discoveries() {
+            let acts: Vec<String> = path.clone().into_actions().iter().map(|a| format!("update(i={}, value{})", a.i, a.v)).collect();
+            let last = path.last_state().clone();
+            env.ctx.violation(&format!("C12:{}", name), &format!("{} violated after {:?}{}", name, acts, last.broken.map(|b| format!(" ({})", b)).unwrap_or_default()), env.case(id, json!({"suite": s.name(), "header": hn, "L": l, "updates": acts, "vector": last.vec})));
+        }
+        if unique != expected_states && checker.discoveries().is_empty() {
+            env.ctx.violation("C12:state-count", &format!("update graph has {} states, expected {}", unique, expected_states), env.case(id, json!({"unique": unique})));
+        }
+        env.ctx.class(&format!("fixpoint:L{}", l));
+        // one explicit 32-step chain
+        let model = checker.model();
+        let mut vec = vec![0u8; l]; let mut sig = model.init_sig.clone();
+        let steps = mccore::fill(seed, &format!("c12-chain-{}", id), 64);
+        let mut chain = Vec::new();
+        for t in 0..32 {
+            let (i, v) = ((steps[2 * t] as usize) % l, steps[2 * t + 1] % 3);
+            chain.push(format!("update(i={}, value{})", i, v));
+            match z(s).update_signature(&k.sk, &sig, &values[vec[i] as usize], &values[v as usize], i, l) {
+                O::Ok(ns) => { sig = ns; vec[i] = v; env.ctx.step();
+                    if sig != model.expected(&vec) || !z(s).verify(&k.pk, &sig, oh(&h), Some(&model.msgs(&vec))).is_ok() { env.ctx.violation("C12:chain", &format!("32-step chain diverges at step {}", t), env.case(id, json!({"chain": chain}))); break; } }
+                o => { env.ctx.violation("C12:chain", &format!("32-step chain: update failed at step {}: {}", t, o.describe()), env.case(id, json!({"chain": chain}))); break; }
+            }
+        }
+        env.ctx.state(&[id.as_bytes(), b"chain32"]); env.ctx.trace();
+        if l == 2 { env.ctx.sample(json!({"root": id, "chain_prefix": chain[..4].to_vec(), "fixpoint_states": unique})); }
+    });
+}
